@@ -26,6 +26,23 @@ SINGLE = [127250, 127488, 129025, 130306]
 FAST = [129029, 127489, 128275]
 
 
+def large_queue_cases(r, thorough):
+    cases = []
+    # large queues (7..9 devices x 40, or an explicit size above 256 / near the uint16_t range): more than 256 frames queued under a long
+    # refusal, then drained - the ring indices are 16 bit wide in the code
+    # early=1: Open() is the first call that creates the device table (the ring must be allocated with the size it is used with)
+    for ndev, q, nmsg, early in ([(7, 40, 9, 0), (1, 300, 10, 0), (2, 40, 3, 1), (3, 5, 2, 1), (9, 2, 2, 1)] + ([(9, 40, 12, 0), (1, 1000, 33, 0), (1, 65535, 40, 0), (2, 20000, 60, 0), (9, 40, 12, 1)] if thorough else [])):
+        cfg = 'NODE mode=1 ndev=%d src=30 q=%d t0=5000%s %s' % (ndev, q, ' early=1' if early else '', ' '.join('tx%d=%s' % (i, ','.join(map(str, FAST))) for i in range(ndev)))
+        ops = ['A ' + '0' * (nmsg * 33 + 50)]
+        for k in range(nmsg):
+            ops.append(smsg(r, k % ndev, r.choice(FAST), r.choice([223, 223, 200, 150])))
+            if k % 5 == 4:
+                ops.append('F')
+        ops += ['A ' + '1' * 100 + '0' * 7, 'F', smsg(r, 0, 127250, 8), 'A', 'F', smsg(r, 0, 129029, 30), 'F']
+        cases.append(cfg + ' | ' + ' ; '.join(ops))
+    return cases
+
+
 def gen(seed, tier):
     r = random.Random(seed * 31337 + 11)
     thorough = tier != 'quick'
@@ -54,10 +71,12 @@ def gen(seed, tier):
         ops = []
         for _k in range(r.randint(5, 40)):
             x = r.random()
-            if x < 0.25:
+            if x < 0.23:
                 p = r.random()
                 pat = ''.join('1' if r.random() < p else '0' for _ in range(r.randint(0, 30)))
                 ops.append('A ' + pat)
+            elif x < 0.27:
+                ops.append('Z %d %d' % (r.choice([0, 0, 0, 1, 2, 3]), r.choice([1, 2, 3, 5, 6, 250])))      # late sizing call: no effect
             elif x < 0.45:
                 ops.append('F')
             elif x < 0.7:
@@ -65,18 +84,7 @@ def gen(seed, tier):
             else:
                 ops.append(smsg(r, r.randrange(ndev), r.choice(FAST), r.choice([5, 9, 13, 14, 30, 100, 223])))
         cases.append(cfg + ' | ' + ' ; '.join(ops))
-    # large queues (7..9 devices x 40, or an explicit size above 256 / near the uint16_t range): more than 256 frames queued under a long
-    # refusal, then drained - the ring indices are 16 bit wide in the code
-    # early=1: Open() is the first call that creates the device table (the ring must be allocated with the size it is used with)
-    for ndev, q, nmsg, early in ([(7, 40, 9, 0), (1, 300, 10, 0), (2, 40, 3, 1), (3, 5, 2, 1), (9, 2, 2, 1)] + ([(9, 40, 12, 0), (1, 1000, 33, 0), (1, 65535, 40, 0), (2, 20000, 60, 0), (9, 40, 12, 1)] if thorough else [])):
-        cfg = 'NODE mode=1 ndev=%d src=30 q=%d t0=5000%s %s' % (ndev, q, ' early=1' if early else '', ' '.join('tx%d=%s' % (i, ','.join(map(str, FAST))) for i in range(ndev)))
-        ops = ['A ' + '0' * (nmsg * 33 + 50)]
-        for k in range(nmsg):
-            ops.append(smsg(r, k % ndev, r.choice(FAST), r.choice([223, 223, 200, 150])))
-            if k % 5 == 4:
-                ops.append('F')
-        ops += ['A ' + '1' * 100 + '0' * 7, 'F', smsg(r, 0, 127250, 8), 'A', 'F', smsg(r, 0, 129029, 30), 'F']
-        cases.append(cfg + ' | ' + ' ; '.join(ops))
+    cases += large_queue_cases(r, thorough)
     return cases
 
 
@@ -117,7 +125,7 @@ def oracle(case, res):
         elif o[0] == 'S':
             idev, pri, pgn = int(o[1]), int(o[2]), int(o[3])
             data = list(bytes.fromhex(o[7])) if o[7] != '-' else []
-            cid = ref_can_id(pri, pgn, src0 + idev, 255)
+            cid = ref_can_id(pri, pgn, own_addr(src0, idev), 255)
             if ref_class(pgn, cfg) == 'single' and len(data) <= 8:
                 frames = [(cid, len(data), data)]
             else:
